@@ -52,27 +52,21 @@ def check_quote_wiring(ctx, inst, fn, pricing, key, reverse=False):
         inst.fail("%s:pools-origin" % key, fn.path, common.span_of_block_term(fn, qb), "quote reads reserves of %s for %s; expected the pair's own stored address" % (sorted(acct), sorted(ctx.roots(qv[4][0]))))
     else:
         inst.site("%s: reserves ⊢ PAIR_INFO.query_pools(own stored address)" % fn.name)
-    sel = {}
-    for g in common.bool_guards(P, fn):
-        c = g.cond
-        if c[0] == "cmp" and c[1] in ("equal", "eq") and len(c[2]) == 2:
-            rs = [set(ctx.roots(x)) for x in c[2]]
-            for x, y in ((rs[0], rs[1]), (rs[1], rs[0])):
-                if x == {P_(fn, asset_i, ".info")} and len(y) == 1:
-                    m = re.match(r"^%s\[([01])\]\.info$" % re.escape(QP), list(y)[0])
-                    if m:
-                        sel[int(m.group(1))] = g
-    if sorted(sel) != [0, 1]:
+    from .. import selection
+    try:
+        S = selection.PoolSelection(ctx, fn, asset_i, QP)
+    except AnchorMissing:
         inst.fail("%s:selection" % key, fn.path, fn.span, "the named asset is not compared with pools[0].info and pools[1].info")
         return None
-    regions = {k: common.region_of_edge(body, g.edge(True)) for k, g in sel.items()}
+    if not S.rejects_foreign():
+        inst.fail("%s:unknown-asset" % key, fn.path, fn.span, "a named asset that is neither pool asset is not rejected by the quote")
     t = body.blocks[cb]["term"]
     n = len(body.blocks[cb]["stmts"])
     # forward: arg0 = pools[k] (offer), arg1 = pools[1-k]; reverse: named asset is the ask: arg0 = pools[1-k] (offer), arg1 = pools[k] (ask)
     for ai in (0, 1):
         a = t["args"][ai]
         for k in (0, 1):
-            v = P.val_operand_in(fn, (cb, n), a, regions[k])
+            v = S.value((cb, n), a, k)
             want_idx = (k if ai == 0 else 1 - k) if not reverse else (1 - k if ai == 0 else k)
             rs = set(ctx.roots(v))
             if rs != {"%s[%d].amount" % (QP, want_idx)}:
